@@ -83,3 +83,8 @@ BUILT['C08'] = {
     'level': 'Runtime monitoring: hostile generated documents (every directive at every position with every argument type, mutated; 1-3 layers), byte-mutated JSON/TOML and token-mutated YAML seeds (generated, tests/*, FuzzParser corpus), a zoo of reference/interpolation cycles and every $parent graph over <= 3 files are run through the library (worker child, panics recovered, deaths and step-budget overruns observed) and the bkl/bkld/bkli/bklr binaries; status must be 0 with complete output equal to the library\'s, or 1 with empty stdout and a diagnostic; never a panic, fatal error, signal or more than 2,000,000 hook steps; cycles must be reported as errors; a full output device must be reported. Holds for the executions produced only.',
     'note': 'Trusted: verifStep hook placement (process1, process2, process2String, merge, get, loadFileAndParents), generator bounds ($repeat <= 6) that keep legitimate work far below the budget. TOML output of non-map documents and the empty file left by a failed -o are not judged.',
 }
+BUILT['C09'] = {
+    'technique': 'history monitor over (input, run kind, status, sha256(output)) events: repeated in-process, fresh processes, and concurrent goroutines under the Go race detector (-race build of the worker)',
+    'level': 'Runtime monitoring: inputs pooled from the other properties\' generators plus determinism-specific shapes are evaluated N times in one process, from G goroutines at once (half of them on other inputs) in a -race build for R rounds, and in fresh processes from files with shuffled key order; all events of one input must be identical and the race detector must report nothing. Holds for the executions and interleavings produced only.',
+    'note': 'Trusted: Go race detector (reports only races on executed paths), worker concurrency driver (one Parser per goroutine). Error messages are not compared.',
+}
